@@ -153,6 +153,7 @@ func newAPIWorld() *apiWorld {
 		{"DecodePatch(patchInv)", true, func(w *apiWorld) ([]byte, error) { return decodeOnly(B("patchInv")) }},
 		{"DecodePatch(patchObj)", true, func(w *apiWorld) ([]byte, error) { return decodeOnly(B("patchObj")) }},
 		{"MergePatch(docObj,mp1)", false, func(w *apiWorld) ([]byte, error) { return v5.MergePatch(B("docObj"), B("mp1")) }},
+		{"MergePatch(eqA,mp1) [object document without the members the patch names]", false, func(w *apiWorld) ([]byte, error) { return v5.MergePatch(B("eqA"), B("mp1")) }},
 		{"MergePatch(docObj,mpArr)", false, func(w *apiWorld) ([]byte, error) { return v5.MergePatch(B("docObj"), B("mpArr")) }},
 		{"MergePatch(docArr,mp2)", false, func(w *apiWorld) ([]byte, error) { return v5.MergePatch(B("docArr"), B("mp2")) }},
 		{"MergePatch(docBad,mp1) [malformed]", false, func(w *apiWorld) ([]byte, error) { return v5.MergePatch(B("docBad"), B("mp1")) }},
